@@ -34,7 +34,7 @@ impl Check for C05 {
         "every strategy with extrapolation off (Linear; CubicSpline with NotAKnot/Natural/Clamped/Periodic/Individual; Bilinear), \
          every entry point (interp_scalar, interp, interp_into, interp_array with query dims Ix0..Ix4 and IxDyn, interp_array_into). \
          Single queries from: both range ends, the floats adjacent to them on both sides, +-inf, NaN, +-MAX, far outside, interior. \
-         Batches (axis lengths 0..3): all in range, or 1 / several offending elements at generated positions. 2-D: x and y ranges \
+         Batches (axis lengths 0..9 for rank 1, 0..4 per axis above): all in range, or 1 / several offending elements at generated positions. 2-D: x and y ranges \
          differ; offending coordinate in x only, y only, both; values that are inside the *other* axis' range. Oracle: the closed-range \
          predicate on the same floats: Ok iff every element is in range, Err otherwise, never a panic; Ok results have shape \
          query ++ trailing. Non-trivial: the query set contains an end, a neighbour of an end, NaN or an infinity, or a batch with exactly \
